@@ -1,4 +1,5 @@
 import OxiddModel.Zbdd.SetOpsS
+import OxiddModel.Zbdd.Canon
 
 /-!
 # The tautology chain (`ZBDDCache::tautologies`), `add_vars`, `apply_not`
@@ -17,7 +18,9 @@ entries are *internal roots*: the manager holds a reference to each of them.
 * `Mgr`, `Mgr.addVars`: what `add_vars` does to store, chain, number of levels and apply cache
   (the apply cache is **not** cleared by `add_vars`; `try_remove_node` on the old chain does
   nothing outside a reordering, so the store is only extended).
-* `EntryOK.numLevels_indep`: only `Ite` entries refer to the current number of levels.
+* `EntryOK.addVars` / `CacheOK.addVars`: only `Ite` entries refer to the current number of levels,
+  and their meaning does not change when levels are appended (`applyIte_numLevels_indep`, by
+  canonicity).
 * `notS` = `apply_not`: `apply_diff(tautology(0), f)`.
 -/
 namespace OxiddModel.Zbdd.Refine
@@ -134,6 +137,35 @@ theorem rebuildChain_nored (n : Nat) (s : Store) (hr : s.NoRed) : (rebuildChain 
 
 /-! ## the number of levels in the meaning of cache entries -/
 
+/-- evaluating a diagram that is ordered for `n` levels in a manager with `n' ≥ n` levels: the
+additional variables must be 0 -/
+theorem eval_more {n n' k : Nat} {t : ZDD} (σ : Nat → Bool) (h : Ordered n k t) (hk : k ≤ n)
+    (hn : n ≤ n') : eval n' σ k t = (eval n σ k t && allFalse σ n n') := by
+  induction h with
+  | empty => simp [eval]
+  | base => simp only [eval]; exact allFalse_split σ hk hn
+  | @node k l hi lo h1 h2 _ _ ihh ihl =>
+    simp only [eval]
+    rw [ihh (by omega), ihl (by omega)]
+    cases σ l <;> simp [Bool.and_assoc]
+
+/-- **`applyIte` does not depend on the number of levels on normal-form operands**: as families,
+`ite(f, g, h) = (f ∩ g) ∪ (h ∖ f)`; the comparisons with `tautology(level)` are only shortcuts.
+(This is why the key `(Ite, [f, g, h], [])` needs no `num_levels`, in contrast to `Restrict`.) -/
+theorem applyIte_numLevels_indep {n n' : Nat} (hn : n ≤ n') (hn' : n' ≤ maxLevel) {a b c : ZDD}
+    (ha : NF n 0 a) (hb : NF n 0 b) (hc : NF n 0 c) : applyIte n a b c = applyIte n' a b c := by
+  have ha' : NF n' 0 a := ⟨ha.1.more hn, ha.2⟩
+  have hb' : NF n' 0 b := ⟨hb.1.more hn, hb.2⟩
+  have hc' : NF n' 0 c := ⟨hc.1.more hn, hc.2⟩
+  have h1 := applyIte_nf n a b c 0 (by omega) ha hb hc
+  have h2 := applyIte_nf n' a b c 0 hn' ha' hb' hc'
+  apply canon n' _ _ 0 (h1.1.more hn) h2.1 h1.2 h2.2
+  intro σ
+  rw [eval_more σ h1.1 (Nat.zero_le _) hn, applyIte_eval n a b c 0 σ (by omega) ha.1 hb.1 hc.1,
+    applyIte_eval n' a b c 0 σ hn' ha'.1 hb'.1 hc'.1, eval_more σ ha.1 (Nat.zero_le _) hn,
+    eval_more σ hb.1 (Nat.zero_le _) hn, eval_more σ hc.1 (Nat.zero_le _) hn]
+  cases allFalse σ n n' <;> cases eval n σ 0 a <;> simp
+
 /-- the manager after its number of levels changed (`var_to_level` of the existing and of the
 future variables is unaffected by `add_vars`: new variables are appended at the bottom) -/
 def Env.withLevels (env : Env) (n : Nat) : Env := { env with numLevels := n }
@@ -146,22 +178,37 @@ theorem specZ_numLevels_indep (env : Env) (n : Nat) {op : ZOp} (hop : op ≠ .it
   rcases ts with _ | ⟨a, _ | ⟨b, _ | ⟨c, _ | ⟨d, ts⟩⟩⟩⟩ <;> rcases ns with _ | ⟨m, _ | ⟨m', ns⟩⟩ <;>
     cases op <;> first | exact absurd rfl hop | rfl
 
-theorem EntryOK.numLevels_indep {env : Env} {s : Store} {k : Key} {r : Bdd.Refine.Edge}
-    (h : EntryOK env s k r) (hk : k.1 ≠ tagEnc .ite) (n : Nat) :
-    EntryOK (env.withLevels n) s k r := by
-  obtain ⟨zk, ts, T, h0, h1, h2, h3⟩ := h
-  refine ⟨zk, ts, T, h0, h1, ?_, h3⟩
-  rw [specZ_numLevels_indep env n (fun e => hk (by rw [h0]; simp [encKey, e]))]
-  exact h2
+/-- … and the meaning of an `Ite` entry with normal-form operands is the same for every larger
+number of levels -/
+theorem specZ_ite_more (env : Env) {n' : Nat} (hn : env.numLevels ≤ n') (hn' : n' ≤ maxLevel)
+    {ts : List ZDD} {ns : List Nat} {T : ZDD} (h : specZ env .ite ts ns = some T)
+    (hnf : ∀ t, t ∈ ts → NF env.numLevels 0 t) : specZ (env.withLevels n') .ite ts ns = some T := by
+  rcases ts with _ | ⟨a, _ | ⟨b, _ | ⟨c, _ | ⟨d, ts⟩⟩⟩⟩ <;> rcases ns with _ | ⟨m, _ | ⟨m', ns⟩⟩ <;>
+    simp only [specZ] at h <;> try cases h
+  simp only [specZ, Env.withLevels, Option.some.injEq]
+  exact (applyIte_numLevels_indep hn hn' (hnf a (by simp)) (hnf b (by simp)) (hnf c (by simp))).symm
 
-/-- no entry of the cache is an `Ite` entry -/
-def NoIte (c : Cache) : Prop := ∀ x, x ∈ c → x.1.1 ≠ tagEnc .ite
+/-- **a sound entry stays sound when levels are appended** -/
+theorem EntryOK.addVars {env : Env} {s : Store} {k : Key} {r : Bdd.Refine.Edge}
+    (h : EntryOK env s k r) {n' : Nat} (hn : env.numLevels ≤ n') (hn' : n' ≤ maxLevel) :
+    EntryOK (env.withLevels n') s k r := by
+  obtain ⟨zk, ts, T, h0, h1, h2, h3, h4⟩ := h
+  by_cases hop : zk.op = .ite
+  · refine ⟨zk, ts, T, h0, h1, ?_, h3, fun _ t ht => ?_⟩
+    · rw [hop] at h2 ⊢
+      exact specZ_ite_more env hn hn' h2 (h4 hop)
+    · exact ⟨(h4 hop t ht).1.more hn, (h4 hop t ht).2⟩
+  · refine ⟨zk, ts, T, h0, h1, ?_, h3, fun e => absurd e hop⟩
+    rw [specZ_numLevels_indep env n' hop]
+    exact h2
 
-/-- **`add_vars` keeps the cache sound without clearing it**: the store is only extended and the
-meaning of the entries (other than `Ite`) does not depend on the current number of levels -/
+/-- **`add_vars` keeps the cache sound without clearing it**: the store is only extended, the
+meaning of the entries other than `Ite` does not depend on the current number of levels, and the
+meaning of `Ite` entries (normal-form operands) does not change when levels are appended -/
 theorem CacheOK.addVars {env : Env} {s s' : Store} {c : Cache} (h : CacheOK env s c)
-    (hle : s.Le s') (hni : NoIte c) (n : Nat) : CacheOK (env.withLevels n) s' c :=
-  fun k r hm => ((h k r hm).mono hle).numLevels_indep (hni _ hm) n
+    (hle : s.Le s') {n' : Nat} (hn : env.numLevels ≤ n') (hn' : n' ≤ maxLevel) :
+    CacheOK (env.withLevels n') s' c :=
+  fun k r hm => ((h k r hm).mono hle).addVars hn hn'
 
 /-! ## the manager: store, apply cache, chain -/
 
@@ -184,11 +231,13 @@ def Mgr.addVars (m : Mgr) (k : Nat) : Mgr :=
     env := m.env.withLevels (m.env.numLevels + k)
     chain := r.2 }
 
-theorem Mgr.addVars_ok (m : Mgr) (k : Nat) (h : m.OK) (hni : NoIte m.st.cache) :
+/-- `add_vars` keeps the manager invariant (level numbers stay below `LevelNo::MAX`, which is
+reserved for terminals) -/
+theorem Mgr.addVars_ok (m : Mgr) (k : Nat) (h : m.OK) (hk : m.env.numLevels + k ≤ maxLevel) :
     (m.addVars k).OK ∧ m.st.store.Le (m.addVars k).st.store ∧
       (m.addVars k).st.cache = m.st.cache :=
   ⟨⟨⟨rebuildChain_unique _ _ h.1.1,
-      CacheOK.addVars h.1.2 (rebuildChain_le _ _) hni _⟩, rebuildChain_ok _ _⟩,
+      CacheOK.addVars h.1.2 (rebuildChain_le _ _) (Nat.le_add_right _ _) hk⟩, rebuildChain_ok _ _⟩,
     rebuildChain_le _ _, rfl⟩
 
 /-! ## `apply_not` -/
